@@ -414,6 +414,7 @@ func r06EverySegmentRouted(c *core.Ctx) {
 			}
 		}
 	}
+	r06RoutedPointsKept(c)
 	c.Check(R, "ring-normalised-before-routing/"+f.Name, ringLoop.Pos(), okNorm, "ring = ensureCorrectWindingOrder(ring, !isOuter) with isOuter := ringIdx == 0, before the vertex loop", "rings are not normalised to CCW shell / CW holes before they are routed")
 	c.Floor(R, 5)
 }
@@ -1671,6 +1672,39 @@ func r13WindingOrder(c *core.Ctx) {
 		}
 		c.Check(R, "orientation-predicate-shared/snap", w.Decl.Pos(), users >= 3 && others == 0, fmt.Sprintf("%d uses of windingOrderIsCorrect in package snap (normalisation and split classification), no other orientation test", users), fmt.Sprintf("normalisation and split classification no longer share one orientation predicate (%d uses of windingOrderIsCorrect, %d other orientation tests)", users, others))
 	}
+	// splitRing never hands the ring on as it came in: every ring it returns is assembled from the visited vertices
+	// and classified by its orientation
+	if sr := c.Anchor(R, "snap.splitRing"); sr != nil && sr.SSA != nil && len(sr.SSA.Params) > 0 {
+		ring := ssa.Value(sr.SSA.Params[0])
+		bad := ""
+		for _, r := range *ring.Referrers() {
+			switch x := r.(type) {
+			case *ssa.Store:
+				if x.Val == ring {
+					if _, isSpill := x.Addr.(*ssa.Alloc); isSpill && onceStored(x.Addr.(*ssa.Alloc)) == ring {
+						// a spilled parameter, followed below
+						for _, rr := range *x.Addr.Referrers() {
+							if ld, ok := rr.(*ssa.UnOp); ok && ld.Op == token.MUL {
+								for _, r3 := range *ld.Referrers() {
+									if st, ok := r3.(*ssa.Store); ok && st.Val == ssa.Value(ld) {
+										bad = c.P.Pos(st.Pos())
+									}
+									if _, ok := r3.(*ssa.Return); ok {
+										bad = c.P.Pos(r3.Pos())
+									}
+								}
+							}
+						}
+						continue
+					}
+					bad = c.P.Pos(x.Pos())
+				}
+			case *ssa.Return:
+				bad = c.P.Pos(x.Pos())
+			}
+		}
+		c.Check(R, "unsplit-ring-is-never-passed-on/"+sr.Name, sr.Decl.Pos(), bad == "", "the ring parameter is only read (indexed, appended from); returned rings are rebuilt and classified", "splitRing returns or stores the ring as it came in (at "+bad+"), bypassing the classification by orientation: a ring that was turned around by snapping keeps the wrong role/orientation")
+	}
 	// an inner ring that becomes the shell of a polygon of its own is turned around first
 	if mf := c.Anchor(R, "snap.matchInnersToPolygons"); mf != nil {
 		r13TurnedOuter(c, mf)
@@ -1930,4 +1964,103 @@ func r14OptionReads(c *core.Ctx) {
 		c.Check(R, "option-read-where-it-acts/snap.Config."+field, token.NoPos, len(g) >= 1 && bad == "", "read in "+strings.Join(g, ", "), fmt.Sprintf("snap.Config.%s is read in %v; it acts in %s, a read in [%s] lets the option influence another stage (or it is never read)", field, g, h, strings.TrimSpace(bad)))
 	}
 	c.Floor(R, 3)
+}
+
+
+// r06RoutedPointsKept: cleanupNewVertices drops the last routed point of a segment only when there is more than one
+// (the next segment starts with it), and the first one only when it equals the point added last.  A segment that
+// routes to a single pixel keeps that pixel: a ring lying inside one pixel must come out as one point, not as an
+// empty ring.
+func r06RoutedPointsKept(c *core.Ctx) {
+	const R = "R06"
+	f := c.Anchor(R, "snap.cleanupNewVertices")
+	if f == nil || f.SSA == nil {
+		return
+	}
+	fn := f.SSA
+	in := ssa.Value(fn.Params[0])
+	construct := "single-routed-point-is-kept/" + f.Name
+	// the first re-slice of the parameter: in[:high]
+	var first *ssa.Slice
+	for _, b := range fn.Blocks {
+		for _, ins := range b.Instrs {
+			if sl, ok := ins.(*ssa.Slice); ok && sl.X == in && sl.Low == nil && sl.High != nil && first == nil {
+				first = sl
+			}
+		}
+	}
+	if first == nil {
+		// no trimming at all would duplicate the shared point of consecutive segments; not this rule's business
+		c.Unknown(R, construct, f.Decl.Pos(), "cleanupNewVertices does not re-slice its input: the way the shared point of consecutive segments is removed is not recognised")
+		return
+	}
+	okHigh, why := false, ""
+	if sub, ok := first.High.(*ssa.BinOp); ok && sub.Op == token.SUB && isLenOf(sub.X, in) {
+		switch m := sub.Y.(type) {
+		case *ssa.Call:
+			// len - min(len-1, 1)
+			if b, isB := m.Call.Value.(*ssa.Builtin); isB && b.Name() == "min" && len(m.Call.Args) == 2 {
+				a0, a1 := m.Call.Args[0], m.Call.Args[1]
+				if isConstInt(a0, 1) {
+					a0, a1 = a1, a0
+				}
+				if isLenMinusOne(a0, in) && isConstInt(a1, 1) {
+					okHigh = true
+				}
+			}
+		case *ssa.Const:
+			// len - 1: only under the guard len > 1
+			if isConstInt(m, 1) {
+				guarded := false
+				for _, b := range fn.Blocks {
+					i := core.BlockIf(b)
+					if i == nil {
+						continue
+					}
+					cmp, ok := i.Cond.(*ssa.BinOp)
+					if !ok {
+						continue
+					}
+					if (cmp.Op == token.GTR && isLenOf(cmp.X, in) && isConstInt(cmp.Y, 1)) || (cmp.Op == token.GEQ && isLenOf(cmp.X, in) && isConstInt(cmp.Y, 2)) {
+						if b.Succs[0].Dominates(first.Block()) {
+							guarded = true
+						}
+					}
+				}
+				okHigh = guarded
+				if !guarded {
+					why = "the last routed point is dropped unconditionally: a segment that routes to one pixel contributes nothing"
+				}
+			}
+		}
+	}
+	if !okHigh && why == "" {
+		why = "the upper bound of the re-slice is not len - min(len-1, 1) (nor len-1 under len > 1)"
+	}
+	// the first point is dropped only when it equals the point added last
+	okFirst := true
+	for _, b := range fn.Blocks {
+		for _, ins := range b.Instrs {
+			sl, ok := ins.(*ssa.Slice)
+			if !ok || sl.Low == nil || !isConstInt(sl.Low, 1) {
+				continue
+			}
+			// dominated by the true edge of an equality between element 0 and the last-vertex parameter
+			dom := false
+			for _, bb := range fn.Blocks {
+				i := core.BlockIf(bb)
+				if i == nil {
+					continue
+				}
+				if cmp, ok := i.Cond.(*ssa.BinOp); ok && cmp.Op == token.EQL && bb.Succs[0].Dominates(sl.Block()) {
+					dom = true
+				}
+			}
+			if !dom {
+				okFirst = false
+				why += " the first routed point is dropped without comparing it with the point added last"
+			}
+		}
+	}
+	c.Check(R, construct, first.Pos(), okHigh && okFirst, "in[:len-min(len-1,1)], then the first point only if it repeats the last one added", "cleanupNewVertices can return nothing for a segment that was routed: "+why)
 }
